@@ -42,8 +42,8 @@ def framing(rep, prog):
             rep.violation("ANCHOR", name, "writer/reader not found")
             continue
         n += 1
-        wo, _ = boundaries(prog, wf[0])
-        ro, _ = boundaries(prog, rf[0])
+        wo, _ = boundaries(prog, wf[0], delegate=True)
+        ro, _ = boundaries(prog, rf[0], delegate=True)
         rep.ob("FRAMING", name, want <= wo and want <= ro and (wo - want) == (ro - want),
                "writer offsets %s reader offsets %s expected %s" % (sorted(wo), sorted(ro), sorted(want)), loc=rf[0].loc())
     tb = cm.find_method(prog, "dryocbox::DryocBox", "to_bytes")
@@ -51,9 +51,9 @@ def framing(rep, prog):
     fs = cm.find_method(prog, "dryocbox::DryocBox", "from_sealed_bytes")
     if tb and fb and fs:
         n += 1
-        to, _ = boundaries(prog, tb[0])
-        bo, _ = boundaries(prog, fb[0])
-        so, _ = boundaries(prog, fs[0])
+        to, _ = boundaries(prog, tb[0], delegate=True)
+        bo, _ = boundaries(prog, fb[0], delegate=True)
+        so, _ = boundaries(prog, fs[0], delegate=True)
         rep.ob("FRAMING", "DryocBox plain", {16} <= to and bo == {16}, "to_bytes %s from_bytes %s" % (sorted(to), sorted(bo)), loc=fb[0].loc())
         rep.ob("FRAMING", "DryocBox sealed", {32, 48} <= to and so == {32, 48}, "to_bytes %s from_sealed_bytes %s" % (sorted(to), sorted(so)), loc=fs[0].loc())
         # minimum-length guards of the parsers
